@@ -3,6 +3,7 @@ import TaRs.Lemmas.Core.SlowStochastic
 import TaRs.Gen.SlowStochastic
 import TaRs.Lemmas.FastStochastic
 import TaRs.Lemmas.ExponentialMovingAverage
+import TaRs.Lemmas.Total.SlowStochastic
 namespace TaRs.Gen.SlowStochastic
 open TaRs TaRs.Rs
 variable {F : Type} [Scalar F]
@@ -37,24 +38,5 @@ theorem nextBar_none_iff (s : SlowStochastic F) (b : Bar F) :
   unfold nextBar
   try simp only [gen_helper]
   cases h : s.fast_stochastic.nextBar b <;> simp [ExponentialMovingAverage.next_eq]
-
-/-- SlowStochastic has no `period` field / `period_fn`: "parameters unchanged" = both component periods -/
-theorem next_total (s : SlowStochastic F) (x : F) (h : WF s) :
-    ∃ r, s.next x = some r ∧ WF r.1 ∧
-      r.1.fast_stochastic.period = s.fast_stochastic.period ∧ r.1.ema.period = s.ema.period := by
-  obtain ⟨⟨fs', k⟩, e1, w1, p1⟩ := FastStochastic.next_total s.fast_stochastic x h.fast
-  obtain ⟨r, hr, w2, p2⟩ := ExponentialMovingAverage.next_total s.ema k h.ema
-  rw [ExponentialMovingAverage.next_eq] at hr
-  cases hr
-  exact ⟨_, next_wiring s x fs' k e1, ⟨w1, w2⟩, p1, p2⟩
-
-theorem nextBar_total (s : SlowStochastic F) (b : Bar F) (h : WF s) :
-    ∃ r, s.nextBar b = some r ∧ WF r.1 ∧
-      r.1.fast_stochastic.period = s.fast_stochastic.period ∧ r.1.ema.period = s.ema.period := by
-  obtain ⟨⟨fs', k⟩, e1, w1, p1⟩ := FastStochastic.nextBar_total s.fast_stochastic b h.fast
-  obtain ⟨r, hr, w2, p2⟩ := ExponentialMovingAverage.next_total s.ema k h.ema
-  rw [ExponentialMovingAverage.next_eq] at hr
-  cases hr
-  exact ⟨_, nextBar_wiring s b fs' k e1, ⟨w1, w2⟩, p1, p2⟩
 
 end TaRs.Gen.SlowStochastic
